@@ -162,6 +162,11 @@ def _run_shard(args):
     fn, ctx, shard, nshards, extra = args
     try:
         use_repo()
+        lim = float(os.environ.get("VERIF_WORKER_MEM_GB", "0") or 0)
+        if lim > 0:  # developer aid: a worker that outgrows the limit fails with MemoryError (a traceback) instead of being OOM-killed
+            import resource
+
+            resource.setrlimit(resource.RLIMIT_AS, (int(lim * 2**30), int(lim * 2**30)))
         return fn(ctx, shard, nshards, *extra)
     except BaseException:  # harness error: reported as exit 2, never as a violation
         st = Stats()
@@ -209,6 +214,26 @@ def hyp_settings(max_examples: int, **kw):
 DRIVE_CHUNK = 250
 
 
+def _quiet(strategy):
+    """The same strategy with a one-word repr. Whenever a top-level draw is abandoned (a filter that runs dry, a rejected
+    unique list) Hypothesis attaches a note quoting repr(strategy); for the recursive document strategies that text is
+    megabytes long and is rebuilt every time — gigabytes of garbage per worker in long runs."""
+    from hypothesis.strategies import SearchStrategy
+
+    class Quiet(SearchStrategy):
+        def __init__(self, inner):
+            super().__init__()
+            self.inner = inner
+
+        def do_draw(self, data):
+            return data.draw(self.inner)
+
+        def __repr__(self):
+            return "<vf strategy>"
+
+    return Quiet(strategy)
+
+
 def drive(strategy, fn: Callable[[Any], None], seed: int, max_examples: int, chunk: int | None = None) -> None:
     """Run fn over max_examples draws of strategy, deterministically from seed.
 
@@ -223,6 +248,7 @@ def drive(strategy, fn: Callable[[Any], None], seed: int, max_examples: int, chu
     import hypothesis
     from hypothesis import given
 
+    strategy = _quiet(strategy)
     done = 0
     i = 0
     cnt = [0]
